@@ -129,6 +129,23 @@ func main() {
 	if err := json.Unmarshal(b, &props); err != nil {
 		die(2, "props.json: %v", err)
 	}
+	// additional per-world property tables
+	if extra, _ := filepath.Glob(filepath.Join(root, "engine", "props.d", "*.json")); len(extra) > 0 {
+		sort.Strings(extra)
+		for _, f := range extra {
+			eb, err := os.ReadFile(f)
+			if err != nil {
+				die(2, "%s: %v", f, err)
+			}
+			more := map[string]propInfo{}
+			if err := json.Unmarshal(eb, &more); err != nil {
+				die(2, "%s: %v", f, err)
+			}
+			for k, v := range more {
+				props[k] = v
+			}
+		}
+	}
 	if prop == "build" {
 		dir := build()
 		fmt.Println(dir)
